@@ -28,6 +28,8 @@ const modPath = "github.com/textwire/textwire/v2"
 // from it. It is rebuilt from /repo's working tree on every run.
 type Model struct {
 	lookupTableAt map[*ssa.Parameter]ssa.Value
+	ifCaseRes    *ifCaseResult
+	opCaseRes    *opCaseResult
 	evalWrappers  map[*ssa.Function]int
 	lenSums       map[*ssa.Function]*lenSum
 	lenSumBusy    map[*ssa.Function]bool
